@@ -11,6 +11,7 @@ import (
 	"encoding/binary"
 	"errors"
 	"hash"
+	"io"
 	"math/big"
 
 	"github.com/tjfoc/gmsm/verifsim/ref/refsm2"
@@ -372,6 +373,38 @@ func SM2Sign(d *big.Int, msg []byte, k *big.Int) ([]byte, bool) {
 		return nil, false
 	}
 	return refsm2.MarshalSignatureASN1(r, s), true
+}
+
+// SM2SignDefault signs msg (default user id) with nonces drawn from r.
+func SM2SignDefault(d *big.Int, msg []byte, r io.Reader) []byte {
+	n := refsm2.N()
+	for {
+		b := make([]byte, 32)
+		io.ReadFull(r, b)
+		k := new(big.Int).SetBytes(b)
+		k.Mod(k, n)
+		if k.Sign() == 0 {
+			continue
+		}
+		if sig, ok := SM2Sign(d, msg, k); ok {
+			return sig
+		}
+	}
+}
+
+// SM2BasePointMult returns the uncompressed encoding of [k]G on the SM2 curve.
+func SM2BasePointMult(k []byte) []byte {
+	x := new(big.Int).SetBytes(k)
+	x.Mod(x, refsm2.N())
+	if x.Sign() == 0 {
+		x.SetInt64(1)
+	}
+	p := refsm2.ScalarBaseMult(x)
+	out := make([]byte, 65)
+	out[0] = 4
+	p.X.FillBytes(out[1:33])
+	p.Y.FillBytes(out[33:])
+	return out
 }
 
 // SM2Verify verifies a DER signature over msg.
